@@ -4,17 +4,19 @@ import (
 	"bytes"
 	"fmt"
 	"io"
+	"strings"
 
 	bexpr "github.com/hashicorp/go-bexpr"
 	"github.com/hashicorp/go-bexpr/grammar"
 
 	"verifmc/eng"
+	"verifmc/model"
 )
 
 func init() {
 	eng.Register(&eng.Check{
 		ID:          "C10",
-		Rule:        "E2 language explorer over bytes: (a) ALL byte strings of length <=4 (thorough <=5) over a 32-symbol alphabet with one representative per lexical class of the grammar (a n o t i s 0 1 - . \" ` / ~ _ ( ) { } [ ] , = ! space backslash NUL 0xFF 0xC3(truncated lead byte) and the 2-byte e-acute); (b) every sequence of <=2 tokens of the extended C15 token alphabet and <=3 of the base alphabet, all gap patterns; (c) every derivation of the C15 derivation set with one bad element (NUL, 0xFF, 0xC3, a lone quote of either kind, \"\\x\", \"\\400\", \"\\\", newline, [, (, {) injected at EVERY byte position; oracle on the real code: CreateEvaluator, CreateFilter, grammar.Parse never panic; evaluator xor error (nil filter only for \"\"); Parse error is nil exactly when CreateEvaluator accepts, then its value is a non-nil Expression; every accepted evaluator evaluates 13 probe data (strings under every name twice in a row, non-empty lists and maps under every name) (maps / lists / structs with every scalar kind incl. unsigned, float, bool, nil) (err => false, no panic), executes as a filter and its tree dumps without panic. Distinct by construction within each family; non-trivial = input accepted (the evaluator was exercised) or rejected with a nil result as required (both directions are meaningful; counted: accepted ones).",
+		Rule:        "E2 language explorer over bytes: (a) ALL byte strings of length <=4 (thorough <=5) over a 32-symbol alphabet with one representative per lexical class of the grammar (a n o t i s 0 1 - . \" ` / ~ _ ( ) { } [ ] , = ! space backslash NUL 0xFF 0xC3(truncated lead byte) and the 2-byte e-acute); (b) every sequence of <=2 tokens of the extended C15 token alphabet and <=3 of the base alphabet, all gap patterns; (c) every derivation of the C15 derivation set with one bad element (NUL, 0xFF, 0xC3, a lone quote of either kind, \"\\x\", \"\\400\", \"\\\", newline, [, (, {) injected at EVERY byte position; (d) extreme literals (numbers around and far beyond the int64 / uint64 / float64 ranges incl. the first that rounds to infinity, 5000-character literals of every kind, zero-padded and huge numeric selector parts, 2000-part paths, 500-fold not, 300-fold and/or) in every value and selector position of 14 + 8 small templates; oracle on the real code: CreateEvaluator, CreateFilter, grammar.Parse never panic; evaluator xor error (nil filter only for \"\"); Parse error is nil exactly when CreateEvaluator accepts, then its value is a non-nil Expression; every accepted evaluator evaluates 25 probe data (incl. collections of unusual shape under every name: maps keyed by a named string type / interface{} / int, typed pointer lists with nil, arrays, pointers to collections, typed nil collections) (strings under every name twice in a row, non-empty lists and maps under every name) (maps / lists / structs with every scalar kind incl. unsigned, float, bool, nil) (err => false, no panic), executes as a filter and its tree dumps without panic. Distinct by construction within each family; non-trivial = input accepted (the evaluator was exercised) or rejected with a nil result as required (both directions are meaningful; counted: accepted ones).",
 		Assumptions: []string{"bounded: strings over class representatives, not all 256 byte values", "coverage-guided fuzzing (a different family) is deliberately not used"},
 		Run:         runC10,
 	})
@@ -33,6 +35,31 @@ var c10Probes = []interface{}{
 	// every name a non-empty list / a non-empty map (quantifier bodies are really entered)
 	c10Lists, c10Maps, c10Lists,
 }
+
+// collections of unusual SHAPE under every name (what creation accepted must evaluate on any datum): maps keyed by a named string
+// type, by interface{}, by int; typed pointer lists with nil; arrays; pointers to collections; typed nil collections.
+var c10Odd = func() []interface{} {
+	one := 1
+	var nilMap map[string]int
+	var nilList []string
+	pm := &map[string]interface{}{"a": 1}
+	shapes := []interface{}{
+		map[model.MyString]interface{}{"a": 1, "b": "s"}, map[interface{}]interface{}{"a": 1, 2: "b"}, map[int]string{1: "a", 0: ""},
+		[]*int{nil, &one}, [2]interface{}{"a", nil}, &pm, map[string]*int{"a": nil, "b": &one}, nilMap, nilList,
+		map[model.MyString][]model.MyString{"a": {"a", ""}}, []map[model.MyString]int{{"a": 1}}, &[]interface{}{map[model.MyString]interface{}{"b": "s"}},
+	}
+	var out []interface{}
+	for _, sh := range shapes {
+		m := map[string]interface{}{}
+		for _, k := range []string{"a", "b", "x", "y", "n", "o", "t", "i", "s", "k", "v", "l", "m", "foo", "bar", ""} {
+			m[k] = sh
+		}
+		out = append(out, m)
+	}
+	return out
+}()
+
+func init() { c10Probes = append(c10Probes, c10Odd...) }
 
 var c10Lists = func() map[string]interface{} {
 	m := map[string]interface{}{}
@@ -193,7 +220,7 @@ func runC10(c *eng.Ctx) {
 		for l := 0; l <= maxLen; l++ {
 			for k := 0; k < total; k++ {
 				idx++
-				if !c.Mine(idx) || !c.Want("i", idx) {
+				if !c.MineMixed(idx) || !c.Want("i", idx) {
 					continue
 				}
 				if idx%256 == 0 && c.Expired() {
@@ -238,6 +265,49 @@ func runC10(c *eng.Ctx) {
 			}
 		}
 	}
+	// (d) extreme literals and selector parts in every value / selector position of small templates
+	if c.Want("f", 4) {
+		idx := 0
+		for _, in := range c10Extremes() {
+			idx++
+			if !c.Mine(idx) || !c.Want("i", idx) {
+				continue
+			}
+			c10Probe(c, []byte(in), map[string]int{"f": 4, "i": idx})
+		}
+	}
+}
+
+// c10Extremes: number literals beyond every numeric range (int64, uint64, float64 incl. the first one that rounds to infinity),
+// very long literals of every kind, numeric selector parts around 2^63 / 2^64 / far beyond, zero-padded ones, very long paths.
+func c10Extremes() []string {
+	rep := strings.Repeat
+	maxF := "17976931348623157" + rep("0", 292) // MaxFloat64 rounded up a little: still finite
+	nums := []string{"9223372036854775807", "9223372036854775808", "-9223372036854775808", "-9223372036854775809", "18446744073709551615", "18446744073709551616",
+		maxF, maxF + "0", "-" + maxF + "0", maxF + "0.5", "1" + rep("0", 308), "1" + rep("0", 309), "-1" + rep("0", 400), rep("9", 400), rep("9", 5000),
+		"0." + rep("0", 400) + "1", "-0." + rep("0", 400), rep("9", 400) + "." + rep("9", 400), "-0", "0.0", "00", "-00.00"}
+	vals := append([]string{}, nums...)
+	for _, n := range nums {
+		vals = append(vals, "\""+n+"\"", "`"+n+"`")
+	}
+	vals = append(vals, "\""+rep("a", 5000)+"\"", rep("a", 5000), "`"+rep("(", 5000)+"`", "\""+rep("\\\\", 2000)+"\"", "\""+rep("\\u00e9", 1000)+"\"", "\"(?:"+rep("a?", 200)+")\"")
+	var out []string
+	for _, v := range vals {
+		for _, t := range []string{"a == %s", "a != %s", "%s in a", "%s not in a", "a contains %s", "a matches %s", "not a == %s", "a == %s and a != %s", "any a as x { x == %s }",
+			"all a as k, v { v != %s or k == %s }", "a.b == %s", "\"/a\" == %s", "l contains %s", "m contains %s"} {
+			out = append(out, strings.ReplaceAll(t, "%s", v))
+		}
+	}
+	parts := []string{"0", "00", "007", "08", "9223372036854775807", "9223372036854775808", "18446744073709551615", "18446744073709551616", rep("9", 400), rep("0", 400), rep("a", 5000), "-1", "1e3", "0x1"}
+	for _, p := range parts {
+		for _, sel := range []string{"a." + p, "a[\"" + p + "\"]", "a[`" + p + "`]", "\"/a/" + p + "\"", "a." + p + ".b", "a.b." + p, p + ".a", "l." + p, "m." + p, "a." + p + "." + p} {
+			for _, t := range []string{"%s == 1", "%s is empty", "%s is not empty", "1 in %s", "%s matches \"a\"", "any %s as x { x == 1 }", "all %s as k, v { k == v }", "a == %s"} {
+				out = append(out, strings.ReplaceAll(t, "%s", sel))
+			}
+		}
+	}
+	out = append(out, "a"+rep(".a", 2000)+" == 1", "\""+rep("/a", 2000)+"\" == 1", "a"+rep("[\"a\"]", 1000)+" is empty", rep("not ", 500)+"a == 1", "a == 1"+rep(" and a == 1", 300), "a == 1"+rep(" or a != 1", 300))
+	return out
 }
 
 // tokenInputs enumerates every sequence of <=2 tokens of the extended C15 token alphabet and <=3 of the base alphabet (plus four
